@@ -99,6 +99,7 @@ type FuncContract struct {
 	Cuts   []Clause // normal return only if these hold (otherwise the callee panics)
 	Fresh  bool     // result is a freshly allocated object
 	Uses   []string // lemmas made available to the proof of this function
+	Theory string   // "strings": discharge this function's obligations with the native SMT string theory
 }
 
 type SpecFun struct {
@@ -540,13 +541,17 @@ func parseSpecFile(path string) (*SpecFile, error) {
 	var curLemma *Lemma
 	var curAxiom *Axiom
 	for _, l := range lines {
-		if itemKw[l.kw] && !(l.kw == "theory" && curLemma != nil) {
+		if itemKw[l.kw] && !(l.kw == "theory" && (curLemma != nil || cur != nil)) {
 			cur, curLemma, curAxiom = nil, nil, nil
 		}
 		switch l.kw {
 		case "theory":
 			if curLemma != nil {
 				curLemma.Theory = l.text
+				continue
+			}
+			if cur != nil {
+				cur.Theory = l.text
 				continue
 			}
 			sf.Theory = l.text
